@@ -9,13 +9,14 @@ import (
 	"github.com/ClickHouse/ch-go/proto"
 
 	"verif/checks/seq/reg"
+	"verif/checks/seq/regtab"
 	"verif/refcol"
 	"verif/refwire"
 	"verif/vk"
 )
 
 // regEntries returns the registry for the tier.
-func regEntries(c *vk.Ctx) []reg.Entry { return reg.Generated }
+func regEntries(c *vk.Ctx) []reg.Entry { return regtab.Generated }
 
 // seqsOver enumerates all index sequences of length <= L over an alphabet of size n.
 func seqsOver(n, L int) [][]int {
